@@ -149,7 +149,10 @@ def precond_system(env, n, kind='real'):
         solver = Sv.QGMRESSolver(preconditioner='left_lu')
         x, info = solver.solve(A, b)
         if info['converged']:
-            env.eq('left_lu: a converged run returns the solution of the ORIGINAL system', cm.as_nested(env, x), cm.as_nested(env, x0), tol=1e-6)
+            Ax = cm.matmul_oracle(env, A, x)
+            bn = cm.as_nested(env, b)
+            r2 = sum(((u - v) ** 2 for ru, rv in zip(Ax, bn) for eu, ev in zip(ru, rv) for u, v in zip(eu, ev)), 0)
+            env.le('left_lu: a converged run solves the ORIGINAL system (||Ax-b|| <= 1e-4 ||b||)', r2, 1e-8 * cm.frob2(env, b), abs_slack=1e-20)
         return
     seen = []
     solver = Sv.QGMRESSolver(preconditioner='left_lu')
@@ -159,17 +162,37 @@ def precond_system(env, n, kind='real'):
         z = env.np.zeros((n, 1))
         return z, z, z, z, 0.0, z, z, z, z, 1, []
     solver._GMRESQsparse = rec
-    solver.solve(env.twist(A), b)
+
+    # the two substitutions are replaced by exact ones (their own accuracy is C16): what is decided here is the
+    # glue - the permutation, L and U of ONE factorisation applied consistently to A and to b
+    def exact_solve(T, B, lower):
+        Tn, Bn = cm.as_nested(env, T), cm.as_nested(env, B)
+        k = len(Bn[0])
+        X = [[None] * k for _ in range(n)]
+        order = range(n) if lower else range(n - 1, -1, -1)
+        for i in order:
+            d = Tn[i][i]
+            d2 = sum((v * v for v in d), 0)
+            dinv = [d[0] / d2, -d[1] / d2, -d[2] / d2, -d[3] / d2]
+            for c in range(k):
+                acc = list(Bn[i][c])
+                for j in (range(i) if lower else range(i + 1, n)):
+                    t = cm.qmul_c(Tn[i][j], X[j][c])
+                    acc = [a - b_ for a, b_ in zip(acc, t)]
+                X[i][c] = cm.qmul_c(dinv, acc)
+        return cm.qmat_from_nested(env, X)
+    oL, oU = Sv._solve_lower_triangular_quat, Sv._solve_upper_triangular_quat
+    Sv._solve_lower_triangular_quat = lambda L, B: exact_solve(L, B, True)
+    Sv._solve_upper_triangular_quat = lambda U_, B: exact_solve(U_, B, False)
+    try:
+        solver.solve(env.twist(A), b)
+    finally:
+        Sv._solve_lower_triangular_quat, Sv._solve_upper_triangular_quat = oL, oU
     (A0, A1, A2, A3), (b0, b1, b2, b3) = seen[0]
     At = [[[A0[i, j], A1[i, j], A2[i, j], A3[i, j]] for j in range(n)] for i in range(n)]
     bt = [[[b0[i, 0], b1[i, 0], b2[i, 0], b3[i, 0]]] for i in range(n)]
     from .c07 import cm_matmul_nested
-    lhs = cm_matmul_nested(At, cm.as_nested(env, x0))
-    # exact up to the 1e-30 regulariser of the triangular solves: compare after clearing it is not possible
-    # in general, so the clause is stated on the residual relative to b~ (1e-12 relative, far above 1e-30/|d|^2)
-    r2 = sum(((u - v) * (u - v) for ru, rv in zip(lhs, bt) for eu, ev in zip(ru, rv) for u, v in zip(eu, ev)), 0)
-    b2 = sum((v * v for rv in bt for ev in rv for v in ev), 0)
-    env.le('preconditioned system is equivalent: ||A~ x0 - b~||^2 <= 1e-24 ||b~||^2', r2, Fraction(1, 10 ** 24) * b2)
+    env.eq('preconditioned system is equivalent: A~ x0 = b~ (same M^-1 on both sides)', cm_matmul_nested(At, cm.as_nested(env, x0)), bt)
 
 
 META = {
@@ -194,8 +217,9 @@ def cells():
                 continue
             if cls == 'full' and tier == 'quick' and (sparse or mi):
                 continue
+            ctier = 'thorough' if (prec == 'left_lu' and not sparse) else tier
             out.append(Cell('gmres[n=1,A %s,b %s,%s,prec=%s,max_iter=%s]' % (cls, bk, 'sparse' if sparse else 'dense', prec, mi), 'c04:gmres',
-                            dict(n=1, cls=cls, bkind=bk, sparse=sparse, prec=prec, max_iter=mi), tier=tier,
+                            dict(n=1, cls=cls, bkind=bk, sparse=sparse, prec=prec, max_iter=mi), tier=ctier,
                             twin=(cls == 'complex' and not sparse and prec is None and mi is None), twin_timeout_s=600,
                             bounds='A 1x1 (%s) and b (%s) symbolic, |a|^2 >= 1e-4; all breakdown / degenerate-rotation paths' % (cls, bk), **big))
     for tol, name in [('1/100', '1e-2'), ('1/1000000000000', '1e-12')]:
@@ -220,7 +244,7 @@ def cells():
     for n, tier in [(2, 'quick'), (3, 'quick')]:
         out.append(Cell('precond_system[n=%d,real]' % n, 'c04:precond_system', dict(n=n, kind='real'), tier=tier, twin=False, events='outside',
                         bounds='A, x0 real-axis symbolic, all pivot paths of the LU preconditioner; Krylov kernel replaced by a recorder', **big))
-    for n, cls, tier in [(1, 'complex', 'quick'), (2, 'identity', 'quick'), (2, 'upper', 'thorough'), (2, 'real', 'thorough')]:
+    for n, cls, tier in [(1, 'complex', 'thorough'), (2, 'identity', 'quick'), (2, 'upper', 'thorough'), (2, 'real', 'thorough')]:
         out.append(Cell('precond_agree[n=%d,%s]' % (n, cls), 'c04:precond_agree', dict(n=n, cls=cls), tier=tier, twin=False,
                         bounds='both preconditioner settings on the same symbolic system', **big))
     return out
